@@ -27,7 +27,7 @@ use proptest::prelude::*;
 use serde::{Deserialize, Serialize};
 
 use crate::driver::{CaseResult, Failure, Run, fail, guard, hash_dbg, ok, pick};
-use crate::props::c14::generate::tame_value;
+
 use crate::props::c14::model::{KEYS, LABELS, TYPES};
 use crate::props::c14::{self, Cmd, EdgeMode, IdMap, MEdge, MNode, Model, Op, Outcome, Tgt, apply_model, apply_store, battery, check_outcome};
 
@@ -50,6 +50,11 @@ fn live() -> impl Strategy<Value = Tgt> {
     any::<u16>().prop_map(|i| Tgt { i, k: 0 })
 }
 
+/// Small ints and two strings: values far away from C14's float / 2^53 findings.
+fn tame_value() -> impl Strategy<Value = c14::V> {
+    prop_oneof![3 => (0i64..4).prop_map(c14::V::Int), 1 => Just(c14::V::Str("a".into())), 1 => Just(c14::V::Str("b".into()))]
+}
+
 fn props() -> impl Strategy<Value = Vec<(u8, c14::V)>> {
     proptest::collection::vec((0u8..2, tame_value()), 0..=2)
 }
@@ -67,7 +72,7 @@ fn thread_op() -> impl Strategy<Value = Op> {
     prop_oneof![
         3 => (proptest::collection::vec(0u8..3, 0..=2), props()).prop_map(|(labels, props)| Op::CreateNode { labels, props }),
         3 => live().prop_map(|t| Op::DeleteNode { t }),
-        2 => live().prop_map(|t| Op::DetachDeleteNode { t }),
+        // DETACH DELETE is two store calls (delete_node_edges, delete_node), not one operation: not generated here
         4 => (live(), live(), 0u8..2).prop_map(|(src, dst, ty)| Op::CreateEdge { src, dst, ty, mode: EdgeMode::Normal, props: Vec::new() }),
         3 => live().prop_map(|t| Op::DeleteEdge { t }),
         4 => (live(), 0u8..2, tame_value()).prop_map(|(t, key, val)| Op::SetNodeProp { t, key, val }),
@@ -176,6 +181,9 @@ fn run_lpg(c: &LpgCase) -> CaseResult {
     // linearizability: some sequential order explains all return values and the final state
     let lens: Vec<usize> = cmds.iter().map(Vec::len).collect();
     let mut first_err: Option<Failure> = None;
+    let mut ghost_explained = false;
+    // per order that got as far as the battery: did it fail only on an index-path lookup?
+    let mut only_index_errors: Vec<bool> = Vec::new();
     let mut tried = 0usize;
     'order: for order in interleavings(&lens) {
         tried += 1;
@@ -198,6 +206,12 @@ fn run_lpg(c: &LpgCase) -> CaseResult {
                 }
                 _ => {
                     if let Err(f) = check_outcome(cmd, &got.outcome, &exp, &m) {
+                        if f.signature.contains("ghost-of-deleted-id") {
+                            ghost_explained = true;
+                        }
+                        if std::env::var("C20_DEBUG").is_ok() {
+                            eprintln!("order {order:?}: outcome: {} :: {}", f.signature, f.what);
+                        }
                         if first_err.is_none() {
                             first_err = Some(f);
                         }
@@ -219,11 +233,43 @@ fn run_lpg(c: &LpgCase) -> CaseResult {
                 return ok(nontrivial, class, hash_dbg(c));
             }
             Err(f) => {
+                // a sequential order whose only disagreement is C14's known sequential defect (a property written
+                // to an already deleted id is stored and stays readable) explains the run up to that defect
+                if f.signature.contains("ghost-of-deleted-id") {
+                    ghost_explained = true;
+                }
+                only_index_errors.push(f.signature.contains("/indexed/"));
+                if std::env::var("C20_DEBUG").is_ok() {
+                    eprintln!("order {order:?}: battery: {} :: {}", f.signature, f.what);
+                }
                 if first_err.is_none() || tried == 1 {
                     first_err = Some(f);
                 }
             }
         }
+    }
+    // known race: two threads write the same node property whose key is indexed; the index update and the
+    // property write are separate steps, so a stale index entry can survive (only index-path lookups are wrong)
+    let indexed_race = c.index_key.is_some_and(|k| {
+        let writers: Vec<BTreeSet<u64>> = cmds
+            .iter()
+            .map(|t| {
+                t.iter()
+                    .filter_map(|cmd| match cmd {
+                        Cmd::SetNodeProp { id, key, .. } | Cmd::RemoveNodeProp { id, key } if *key == k => Some(*id),
+                        _ => None,
+                    })
+                    .collect()
+            })
+            .collect();
+        (0..writers.len()).any(|i| (i + 1..writers.len()).any(|j| writers[i].intersection(&writers[j]).next().is_some()))
+    });
+    // some order explains everything up to an index-path lookup
+    if indexed_race && only_index_errors.iter().any(|x| *x) {
+        return crate::driver::ok_with_known(false, "explained-by-indexed-set-race", hash_dbg(c), vec!["c20/known/indexed-property-write-race".to_string()]);
+    }
+    if ghost_explained {
+        return crate::driver::ok_with_known(false, "explained-by-set-on-deleted-id", hash_dbg(c), vec!["c20/known/set-property-on-deleted-id".to_string()]);
     }
     let f = first_err.unwrap_or(Failure { signature: "no-order".into(), what: String::new() });
     fail(
@@ -593,9 +639,14 @@ fn run_free(c: &FreeCase) -> CaseResult {
                 let mut epochs: Vec<u64> = Vec::new();
                 barrier.wait();
                 for (kind, a, b) in &prog {
-                    let target = |own: &Vec<NodeId>| -> NodeId {
-                        let mut all = shared.clone();
-                        all.extend(own.iter().copied());
+                    let shared = shared.clone();
+                    // shared nodes are never deleted; own nodes only while this thread has not deleted them
+                    // (writing to a deleted id is C14's sequential finding, not a concurrency question)
+                    let dn = deleted_nodes.clone();
+                    let shared_t = shared.clone();
+                    let target = move |own: &Vec<NodeId>| -> NodeId {
+                        let mut all = shared_t.clone();
+                        all.extend(own.iter().copied().filter(|n| !dn.contains(n)));
                         all[pick(*a, all.len())]
                     };
                     match kind {
@@ -759,5 +810,5 @@ pub fn run(r: &mut Run) {
     r.subcheck("lpg", r.cases(4000, 300_000), move || lpg_strategy(mt, mo), run_lpg);
     r.subcheck("rdf", r.cases(6000, 300_000), move || rdf_strategy(3), run_rdf);
     r.subcheck("buffer", r.cases(6000, 300_000), buf_strategy, run_buffer);
-    r.subcheck("free", r.cases(300, 20_000), free_strategy, run_free);
+    r.subcheck("free", r.cases(6000, 200_000), free_strategy, run_free);
 }
